@@ -38,7 +38,7 @@ pub fn run(ctx: &Ctx) -> ! {
     }
     // (3) bisync --dry-run on the whole bisync state graph
     let bounds = if thorough {
-        vec![crate::e2::Bound { u0: vec!["f"], e: 4, m: 2, state_cap: 1_500_000 }, crate::e2::Bound { u0: vec!["f", "d/g"], e: 3, m: 2, state_cap: 1_500_000 }]
+        vec![crate::e2::Bound { u0: vec!["f"], e: 5, m: 2, state_cap: 2_500_000 }, crate::e2::Bound { u0: vec!["f"], e: 3, m: 3, state_cap: 2_500_000 }, crate::e2::Bound { u0: vec!["f", "d/g"], e: 3, m: 2, state_cap: 2_500_000 }]
     } else {
         vec![crate::e2::Bound { u0: vec!["f"], e: 3, m: 2, state_cap: 400_000 }, crate::e2::Bound { u0: vec!["f", "d/g"], e: 2, m: 1, state_cap: 400_000 }]
     };
